@@ -594,7 +594,8 @@ def _parse_experimental_function_value_info_name(
         A tuple of the function domain, function name and value name if the value info is for a function.
         None otherwise.
     """
-    parts = name.split("/")
+    # The value name itself may contain "/" (it is everything after the first one)
+    parts = name.split("/", 1)
     expected_parts = 2
     if len(parts) != expected_parts:
         return None
